@@ -141,6 +141,19 @@ type c18Case struct {
 	Query []byte `json:"query,omitempty"`
 	SeqS  string `json:"seq_text"`
 	QryS  string `json:"query_text,omitempty"`
+	// generated long inputs: the pattern repeated (and cut) to the given length
+	SeqPat string `json:"seq_pattern,omitempty"`
+	SeqN   int    `json:"seq_len,omitempty"`
+	QryPat string `json:"query_pattern,omitempty"`
+	QryN   int    `json:"query_len,omitempty"`
+}
+
+func repeatTo(pat string, n int) []byte {
+	p := make([]byte, n)
+	for i := range p {
+		p[i] = pat[i%len(pat)]
+	}
+	return p
 }
 
 func segsOf(ss []gts.Segment) [][2]int {
@@ -152,6 +165,38 @@ func segsOf(ss []gts.Segment) [][2]int {
 }
 
 func c18Eval(c c18Case) (ok bool, sig, detail string) {
+	if c.SeqPat != "" {
+		c.Seq = repeatTo(c.SeqPat, c.SeqN)
+	}
+	if c.QryPat != "" {
+		c.Query = repeatTo(c.QryPat, c.QryN)
+	}
+	if len(c.Seq) > 64 || len(c.Query) > 64 {
+		ok, sig, detail = c18EvalInner(c)
+		if len(detail) > 300 {
+			detail = fmt.Sprintf("seq=%q x %d query=%q x %d: %s ... %s", c.SeqPat, c.SeqN, c.QryPat, c.QryN, detail[:60], detail[len(detail)-160:])
+		}
+		return
+	}
+	return c18EvalInner(c)
+}
+
+func firstSegDiff(got, want [][2]int) string {
+	for i := 0; i < len(got) || i < len(want); i++ {
+		if i >= len(got) {
+			return fmt.Sprintf("segment #%d missing, want %v (got %d segments, want %d)", i, want[i], len(got), len(want))
+		}
+		if i >= len(want) {
+			return fmt.Sprintf("extra segment #%d %v (got %d segments, want %d)", i, got[i], len(got), len(want))
+		}
+		if got[i] != want[i] {
+			return fmt.Sprintf("segment #%d is %v, want %v (got %d segments, want %d)", i, got[i], want[i], len(got), len(want))
+		}
+	}
+	return ""
+}
+
+func c18EvalInner(c c18Case) (ok bool, sig, detail string) {
 	seq := gts.New(nil, nil, cloneBytes(c.Seq))
 	switch c.Op {
 	case "complement", "transcribe":
@@ -199,6 +244,9 @@ func c18Eval(c c18Case) (ok bool, sig, detail string) {
 		var got []gts.Segment
 		if p, msg := engine.Safely(func() { got = gts.Match(seq, gts.New(nil, nil, cloneBytes(c.Query))) }); p {
 			// classification by the query byte that is regexp syntax
+			if len(c.Seq) > 64 || len(c.Query) > 64 {
+				return false, "match-panic", "Match panics: " + msg
+			}
 			return false, "match-panic", fmt.Sprintf("Match(%q, %q) panics: %s", c.Seq, c.Query, msg)
 		}
 		if !judged {
@@ -214,6 +262,9 @@ func c18Eval(c c18Case) (ok bool, sig, detail string) {
 					sg = "match-row-k"
 				}
 			}
+			if len(c.Seq) > 64 || len(c.Query) > 64 {
+				return false, sg, "Match: " + firstSegDiff(segsOf(got), want)
+			}
 			return false, sg, fmt.Sprintf("Match(%q, %q) = %v want %v", c.Seq, c.Query, segsOf(got), want)
 		}
 		return true, "", ""
@@ -221,9 +272,15 @@ func c18Eval(c c18Case) (ok bool, sig, detail string) {
 		want := refSearch(c.Seq, c.Query)
 		var got []gts.Segment
 		if p, msg := engine.Safely(func() { got = gts.Search(seq, gts.New(nil, nil, cloneBytes(c.Query))) }); p {
+			if len(c.Seq) > 64 || len(c.Query) > 64 {
+				return false, "search-panic", "Search panics: " + msg
+			}
 			return false, "search-panic", fmt.Sprintf("Search(%q, %q) panics: %s", c.Seq, c.Query, msg)
 		}
 		if fmt.Sprint(segsOf(got)) != fmt.Sprint(want) {
+			if len(c.Seq) > 64 || len(c.Query) > 64 {
+				return false, "search", "Search: " + firstSegDiff(segsOf(got), want)
+			}
 			return false, "search", fmt.Sprintf("Search(%q, %q) = %v want %v", c.Seq, c.Query, segsOf(got), want)
 		}
 		return true, "", ""
@@ -262,9 +319,9 @@ func refMatchWithK(seq, query []byte) ([][2]int, bool) {
 }
 
 func init() {
-	register(&Check{ID: "C18", Level: "model_checking", Quick: 90 * time.Second, Thor: 20 * time.Minute,
+	register(&Check{ID: "C18", Level: "model_checking", Quick: 300 * time.Second, Thor: 40 * time.Minute,
 		Run: func(r *engine.Run) bool {
-			r.Rule = "all 256 byte values through Complement/Transcribe; every (query letter x sequence letter) pair of the IUPAC alphabet in both cases and every printable non-alphabet query byte against every printable sequence byte; all sequences of length <=N and queries of length <=3 over {a,c,g,t,r,n,A,K}; distinct key = (op, query, sequence); non-trivial = the reference has >=1 match or the query has a non-alphabet byte"
+			r.Rule = "all 256 byte values through Complement/Transcribe; every (query letter x sequence letter) pair of the IUPAC alphabet in both cases and every printable non-alphabet query byte against every printable sequence byte; all sequences of length <=N and queries of length <=3 over {a,c,g,t,r,n,A,K}; periodic sequences of every length of the size ladder (up to 140000 quick / 2200000 thorough) against 3 (quick) / 7 (thorough) short queries, periodic queries of every length 4..1100 and of the ladder up to 5000 / 70000; distinct key = (op, query, sequence); non-trivial = the reference has >=1 match or the query has a non-alphabet byte"
 			bulk := false
 			eval := func(c c18Case, nontrivial bool) {
 				c.SeqS, c.QryS = string(c.Seq), string(c.Query)
@@ -276,7 +333,7 @@ func init() {
 					if bulk {
 						r.DistinctByConstruction.Add(1) // (sequence, query) pairs of the small-alphabet sweep are generated exactly once
 					} else {
-						r.Distinct.Add(c.Op + "|" + c.QryS + "|" + c.SeqS)
+						r.Distinct.Add(fmt.Sprintf("%s|%s|%s|%s|%d|%s|%d", c.Op, c.QryS, c.SeqS, c.SeqPat, c.SeqN, c.QryPat, c.QryN))
 					}
 				}
 				if !ok {
@@ -322,6 +379,45 @@ func init() {
 					}
 				}
 			}
+			// long inputs: periodic sequences of every length of the size ladder against short queries (all
+			// overlapping hits, hits at and across every power-of-two / power-of-ten offset), and periodic queries of
+			// every length 1..1100 and of the ladder above that (runs of one letter, alternating letters)
+			maxSeq, maxQry := 140000, 5000
+			if r.Tier == "thorough" {
+				maxSeq, maxQry = 2200000, 70000
+			}
+			var long []c18Case
+			for _, n := range engine.Ladder(0, maxSeq, 60, 4096) {
+				if n < 7 {
+					continue
+				}
+				sps, qs := []string{"a", "aacgn"}, []string{"aa", "n", "cgna"}
+				if r.Tier == "thorough" {
+					sps, qs = []string{"a", "acgt", "aacgn", "AcK"}, []string{"a", "aa", "aca", "ta", "n", "ack", "cgtac"}
+				}
+				for _, sp := range sps {
+					for _, q := range qs {
+						long = append(long, c18Case{Op: "search", SeqPat: sp, SeqN: n, Query: []byte(q)}, c18Case{Op: "match", SeqPat: sp, SeqN: n, Query: []byte(q)})
+					}
+				}
+			}
+			for _, m := range engine.Ladder(1100, maxQry) {
+				if m < 4 {
+					continue
+				}
+				for _, qp := range []string{"a", "ac", "n", "r"} {
+					for _, extra := range []int{0, 1, m, m + 3} {
+						long = append(long, c18Case{Op: "search", SeqPat: qp, SeqN: m + extra, QryPat: qp, QryN: m}, c18Case{Op: "match", SeqPat: "ac", SeqN: m + extra, QryPat: qp, QryN: m})
+					}
+				}
+			}
+			r.Extra["long_cases"] = len(long)
+			r.Extra["long_max_seq_len"] = maxSeq
+			r.Extra["long_max_query_len"] = maxQry
+			longDone := r.ParallelFor(len(long), func(i int) {
+				eval(long[i], true)
+			})
+			r.States.Add(int64(len(long)))
 			// small-alphabet sequences and queries
 			alpha := []byte("acgtrnAK")
 			maxS, maxQ := 5, 3
@@ -361,7 +457,7 @@ func init() {
 			r.States.Add(int64(len(seqs)))
 			r.Extra["max_seq_len"] = maxS
 			r.Assumptions = []string{"non-alphabet query bytes are judged over printable ASCII (residues are printable by the ORIGIN grammar); an N query against a non-alphabet sequence byte is not defined by the statement and not judged"}
-			return complete
+			return complete && longDone
 		},
 		Replay: func(raw json.RawMessage) (bool, string, string) {
 			var c c18Case
